@@ -3,38 +3,69 @@ From Coq Require Import List NArith ZArith Bool.
 From LH Require Import Base.Bytes Base.Res Model.Lexer Model.Ast Model.Symbols Spec.SymbolSpec Proofs.SymbolsWitness.
 Import ListNotations.
 
-(* REPAIRED defect (DESIGN 6 row 18, fix: commit 5912ee6): the start column of an entry with children used to be overwritten
-   by the largest end column of its children (`local u = { k = 1, g = function() end }`: start after end;
-   `t = {}` / `t.v = 1`: range starting after the declaring `t`).  The pre-fix code is kept in the model under
-   fx = false; the deployed model is the repaired one. *)
-Theorem C19_deployed_is_repaired : deployed_fixed = true.
+(* The outline code is modelled with one flag per repaired defect (Model/Symbols.v, Record fixes; fx_none = the code
+   before any repair, fx_round1 = after fix: commit 5912ee6, fx_all = every repair).  The deployed model is fx_all:
+     fx_range   DESIGN 6 row 18 (5912ee6): the start column of an entry with children was overwritten by a child's end column
+     fx_fnspan  5674eed: an entry whose value is a function literal was reported with the range
+                of the literal, which does not contain the declaring identifier
+     fx_hull    c9a2516: a member defined before its table lay outside the parent's range
+     fx_alldecl 036f9b8: one entry per local NAME (the last declaration) instead of per declaration
+     fx_undecl  b639f4b: `function M.f() end` in a file that never defines M had no entry
+     fx_ownfile d582d9c: members defined in another file were listed with that file's coordinates *)
+Theorem C19_deployed_is_repaired : deployed = fx_all.
 Proof. reflexivity. Qed.
 Print Assumptions C19_deployed_is_repaired.
 
+(* ---------------------------------------------------------------------- regression witnesses of the repaired defects:
+   the old witness under the pre-fix variant of the code, and the same file under the deployed variant *)
 Theorem C19_range_rewrite_prefix_refuted :
-  (exists s, outline_of_bytes false w_local = Some [s] /\
+  (exists s, outline_of_bytes fx_none w_local = Some [s] /\
              s_key s = [117%N] /\ s_decl s = mkLoc 1 6 1 7 /\ s_loc s = mkLoc 1 37 1 7 /\
              well_formed (s_loc s) = false /\ contains (s_loc s) (s_decl s) = false) /\
-  (exists s, outline_of_bytes false w_global = Some [s] /\
+  (exists s, outline_of_bytes fx_none w_global = Some [s] /\
              s_key s = [116%N] /\ s_decl s = mkLoc 1 0 1 1 /\ s_loc s = mkLoc 1 3 2 1 /\
              contains (s_loc s) (s_decl s) = false).
 Proof. exact (conj rewrite_local_witness rewrite_global_witness). Qed.
 Print Assumptions C19_range_rewrite_prefix_refuted.
 
-(* the two witnesses on the deployed (repaired) code: well-formed ranges that contain the declaring identifier *)
-Theorem C19_range_rewrite_repaired :
-  (exists s, outline_of_bytes deployed_fixed w_local = Some [s] /\ s_loc s = mkLoc 1 6 1 37 /\
+Example C19_range_rewrite_repaired :
+  (exists s, outline_of_bytes deployed w_local = Some [s] /\ s_loc s = mkLoc 1 6 1 37 /\
              well_formed (s_loc s) = true /\ contains (s_loc s) (s_decl s) = true) /\
-  (exists s, outline_of_bytes deployed_fixed w_global = Some [s] /\ s_loc s = mkLoc 1 0 2 3 /\
+  (exists s, outline_of_bytes deployed w_global = Some [s] /\ s_loc s = mkLoc 1 0 2 3 /\
              well_formed (s_loc s) = true /\ contains (s_loc s) (s_decl s) = true).
 Proof. exact rewrite_witnesses_fixed. Qed.
-Print Assumptions C19_range_rewrite_repaired.
 
-(* ====================================================================== round 2: theorems for ALL files
+(* `h = function() end`: range of the literal 1:4-1:18 before, Union with the identifier 1:0-1:18 now *)
+Theorem C19_assigned_function_prefix_refuted :
+  exists s, outline_of_bytes fx_round1 w_assigned = Some [s] /\
+            s_key s = [104%N] /\ s_children s = [] /\ s_fn s = true /\
+            s_decl s = mkLoc 1 0 1 1 /\ s_loc s = mkLoc 1 4 1 18 /\ contains (s_loc s) (s_decl s) = false.
+Proof. exact assigned_function_witness. Qed.
+Print Assumptions C19_assigned_function_prefix_refuted.
+
+Example C19_assigned_function_repaired :
+  exists s, outline_of_bytes deployed w_assigned = Some [s] /\
+            s_key s = [104%N] /\ s_fn s = true /\
+            s_decl s = mkLoc 1 0 1 1 /\ s_loc s = mkLoc 1 0 1 18 /\ contains (s_loc s) (s_decl s) = true.
+Proof. exact assigned_function_repaired. Qed.
+
+(* `local x = 1` / `local x = 2`: one entry (the second declaration) before, one entry per declaration now *)
+Theorem C19_shadowed_prefix_refuted :
+  exists s, outline_of_bytes fx_round1 w_shadow = Some [s] /\ s_key s = [120%N] /\ s_decl s = mkLoc 2 6 2 7.
+Proof. exact shadowed_witness. Qed.
+Print Assumptions C19_shadowed_prefix_refuted.
+
+Example C19_shadowed_repaired :
+  exists s1 s2, outline_of_bytes deployed w_shadow = Some [s1; s2] /\
+                s_key s1 = [120%N] /\ s_decl s1 = mkLoc 1 6 1 7 /\ s_loc s1 = mkLoc 1 6 1 7 /\
+                s_key s2 = [120%N] /\ s_decl s2 = mkLoc 2 6 2 7 /\ s_loc s2 = mkLoc 2 6 2 7.
+Proof. exact shadowed_repaired. Qed.
+
+(* ====================================================================== theorems for ALL files
    (proofs: Proofs/SymbolsRange.v, SymbolsLocs.v, SymbolsMerge.v, SymbolsOutline.v; examples: SymbolsExamples.v).
    `outline_of_bytes fx bs` = parse the bytes, run the first-pass analysis model, merge (one-file workspace),
-   FindAllSymbol with range rule fx; deployed_fixed = true (the repaired rule). *)
-From LH Require Import Model.Parser Model.LuaFront Proofs.SymbolsLocs Proofs.SymbolsOutline Proofs.SymbolsExamples.
+   FindAllSymbol of variant fx; deployed = fx_all. *)
+From LH Require Import Model.Parser Model.LuaFront Proofs.SymbolsLocs Proofs.SymbolsRange Proofs.SymbolsOutline Proofs.SymbolsExamples.
 
 (* Layout hypothesis (boolean, on the AST): every Loc of an expression / declared name of the tree is a token span with
    start <= end.  Parser output satisfies it on the witness files and on a file using every declaration form. *)
@@ -42,120 +73,155 @@ Example C19_layout_wf_examples :
   map (parsed_ok layout_wf) [w_local; w_global; w_assigned; w_shadow; w_rich; w_before] = [true; true; true; true; true; true].
 Proof. exact layout_wf_examples. Qed.
 
-(* every entry (and every child entry) of the outline has start <= end - now also entries WITH children *)
+(* every entry (and every child entry) of the outline has start <= end *)
 Theorem C19_range_well_formed :
   forall bs b ss s,
     parse_bytes no_gbk classify_tok bs = Ok (PR b [] []) -> layout_wf b = true ->
-    outline_of_bytes deployed_fixed bs = Some ss -> In s ss ->
+    outline_of_bytes deployed bs = Some ss -> In s ss ->
     well_formed (s_loc s) = true /\ forall c, In c (s_children s) -> well_formed (c_loc c) = true.
 Proof. exact outline_of_bytes_wf. Qed.
 Print Assumptions C19_range_well_formed.
 
-(* the range contains the declaring identifier: full statement (refuted by function-valued assignments, class
-   assigned_function_range) and the proved part: every entry / child entry that is not function-valued, for EVERY
-   file, no layout hypothesis, with or without children.  What is missing: function-valued entries (for top-level
-   `local function` / `function f()` statements see C19_outline_complete_partial below). *)
+(* the range contains the declaring identifier: the FULL statement, for EVERY file, every entry and every child entry,
+   function-valued or not, no layout hypothesis.  (It was refuted by function-valued assignments, class
+   assigned_function_range, before 5674eed: C19_range_contains_decl_prefix_refuted.) *)
 Definition C19_range_contains_decl_full : Prop :=
-  forall bs ss s, outline_of_bytes deployed_fixed bs = Some ss -> In s ss ->
+  forall bs ss s, outline_of_bytes deployed bs = Some ss -> In s ss ->
                   contains (s_loc s) (s_decl s) = true /\
                   forall c, In c (s_children s) -> contains (c_loc c) (c_decl c) = true.
 
-Theorem C19_range_contains_decl_partial :
-  forall bs ss s,
-    outline_of_bytes deployed_fixed bs = Some ss -> In s ss ->
-    (s_fn s = false ->
-     contains (s_loc s) (s_decl s) = true /\ sl (s_loc s) = sl (s_decl s) /\ sc (s_loc s) = sc (s_decl s)) /\
-    (forall c, In c (s_children s) -> c_fn c = false -> contains (c_loc c) (c_decl c) = true).
-Proof. exact outline_contains_decl_partial. Qed.
-Print Assumptions C19_range_contains_decl_partial.
+Theorem C19_range_contains_decl : C19_range_contains_decl_full.
+Proof. exact outline_contains_decl. Qed.
+Print Assumptions C19_range_contains_decl.
 
-Theorem C19_range_contains_decl_full_refuted : ~ C19_range_contains_decl_full.
-Proof. exact contains_decl_full_refuted. Qed.
-Print Assumptions C19_range_contains_decl_full_refuted.
+Theorem C19_range_contains_decl_prefix_refuted :
+  ~ (forall bs ss s, outline_of_bytes fx_round1 bs = Some ss -> In s ss ->
+                     contains (s_loc s) (s_decl s) = true /\
+                     forall c, In c (s_children s) -> contains (c_loc c) (c_decl c) = true).
+Proof. exact contains_decl_prefix_refuted. Qed.
+Print Assumptions C19_range_contains_decl_prefix_refuted.
 
-(* children inside the parent's range: full statement, refuted on the model AND on the real server by a member that
-   is assigned textually BEFORE the global is defined (`function foo() t.x = 1 end  t = {}`: entry t = 3:0-3:1, child
-   t.x = 1:4-1:5); proved part, for EVERY file: only non-function entries have children, the parent starts at its
-   declaring identifier, every child ENDS inside the parent, and the parent's end is its own identifier's end or the
-   end of one of its children (the range is the smallest one with these properties). Missing: child start >= parent
-   start (false in general, see the witness). *)
+(* children inside the parent's range: the FULL statement, for EVERY file.  (It was refuted on the model AND on the real
+   server by a member assigned textually BEFORE the global is defined - `function foo() t.x = 1 end  t = {}`: entry
+   t = 3:0-3:1, child t.x = 1:4-1:5 - before c9a2516: C19_children_inside_prefix_refuted.) *)
 Definition C19_children_inside_full : Prop :=
-  forall bs ss s c, outline_of_bytes deployed_fixed bs = Some ss -> In s ss -> In c (s_children s) ->
+  forall bs ss s c, outline_of_bytes deployed bs = Some ss -> In s ss -> In c (s_children s) ->
                     contains (s_loc s) (c_loc c) = true.
 
-Theorem C19_children_inside_partial :
-  forall bs ss s c,
-    outline_of_bytes deployed_fixed bs = Some ss -> In s ss -> In c (s_children s) ->
-    s_fn s = false /\
-    sl (s_loc s) = sl (s_decl s) /\ sc (s_loc s) = sc (s_decl s) /\
-    pos_le (el (c_loc c)) (ec (c_loc c)) (el (s_loc s)) (ec (s_loc s)) = true /\
-    ((el (s_loc s), ec (s_loc s)) = (el (s_decl s), ec (s_decl s)) \/
-     exists c', In c' (s_children s) /\ (el (s_loc s), ec (s_loc s)) = (el (c_loc c'), ec (c_loc c'))).
-Proof. exact outline_children_inside_partial. Qed.
-Print Assumptions C19_children_inside_partial.
+Theorem C19_children_inside : C19_children_inside_full.
+Proof. exact outline_children_inside. Qed.
+Print Assumptions C19_children_inside.
 
-Theorem C19_children_inside_full_refuted : ~ C19_children_inside_full.
-Proof. exact children_inside_full_refuted. Qed.
-Print Assumptions C19_children_inside_full_refuted.
+Theorem C19_children_inside_prefix_refuted :
+  ~ (forall bs ss s c, outline_of_bytes fx_round1 bs = Some ss -> In s ss -> In c (s_children s) ->
+                       contains (s_loc s) (c_loc c) = true).
+Proof. exact children_inside_prefix_refuted. Qed.
+Print Assumptions C19_children_inside_prefix_refuted.
+
+Example C19_children_inside_repaired :
+  exists ss s c, outline_of_bytes deployed w_before = Some ss /\ nth_error ss 1 = Some s /\
+                 nth_error (s_children s) 0 = Some c /\
+                 s_key s = [116%N] /\ s_decl s = mkLoc 4 0 4 1 /\ s_loc s = mkLoc 2 4 4 1 /\ c_loc c = mkLoc 2 4 2 5 /\
+                 contains (s_loc s) (c_loc c) = true /\ contains (s_loc s) (s_decl s) = true.
+Proof. exact child_before_parent_repaired. Qed.
+
+(* the ranges are the SMALLEST ones with these two properties, for EVERY file: only entries that are not function-valued
+   have children; such an entry starts at the start of its identifier or of one of its children and ends at the end of
+   its identifier or of one of its children (without children: it IS the identifier); a child that is not
+   function-valued is its identifier; a function-valued entry / child is the Union of the function's Loc and the
+   identifier (third clause of C19_outline_complete_partial and `fn_range`). *)
+Theorem C19_range_tight :
+  forall bs ss s,
+    outline_of_bytes deployed bs = Some ss -> In s ss ->
+    (forall c, In c (s_children s) -> s_fn s = false /\ (c_fn c = false -> c_loc c = c_decl c)) /\
+    (s_fn s = false ->
+     ((sl (s_loc s), sc (s_loc s)) = (sl (s_decl s), sc (s_decl s)) \/
+      exists c, In c (s_children s) /\ (sl (s_loc s), sc (s_loc s)) = (sl (c_loc c), sc (c_loc c))) /\
+     ((el (s_loc s), ec (s_loc s)) = (el (s_decl s), ec (s_decl s)) \/
+      exists c, In c (s_children s) /\ (el (s_loc s), ec (s_loc s)) = (el (c_loc c), ec (c_loc c)))).
+Proof. exact outline_tight. Qed.
+Print Assumptions C19_range_tight.
 
 (* ---------------------------------------------------------------------- completeness of the outline
    (proofs: Proofs/SymbolsSig.v, SymbolsGlobals.v, SymbolsComplete.v).
    Full statement: every declaration of the reference list (Spec/SymbolSpec.v: top-level locals, globals, function
    members) is covered by an entry of the right kind with a well-formed range inside the file that contains one of
-   its declaring identifiers.  It fails on the witness files of the open finding classes (assigned_function_range,
-   shadowed_top_local; member_* are function members). *)
+   its declaring identifiers.  It now holds on every witness file of the repaired classes and still fails on the
+   witness of the open class member_lost (a function-valued member of a function-valued local). *)
 From LH Require Import Proofs.SymbolsJudge Proofs.SymbolsSig Proofs.SymbolsGlobals Proofs.SymbolsLexical Proofs.SymbolsComplete.
 
 Definition C19_outline_complete_full : Prop :=
   forall bs b st,
     parse_bytes no_gbk classify_tok bs = Ok (PR b [] []) -> analyse (fuel_of_bytes bs) b = Ok st ->
-    covers (line_lens bs) (entries_of (find_all_symbol deployed_fixed (finalize st))) (decls_spec (fuel_of_bytes bs) b) = true.
+    covers (line_lens bs) (entries_of (find_all_symbol deployed (finalize st))) (decls_spec (fuel_of_bytes bs) b) = true.
 
 Theorem C19_outline_complete_full_witnesses :
-  map full_cover [w_global; w_rich; w_local; w_assigned; w_shadow] = [Some true; Some false; Some false; Some false; Some false].
+  map (full_cover fx_round1) [w_global; w_rich; w_local; w_assigned; w_shadow; w_before; w_undeclared; w_member_lost] =
+    [Some true; Some false; Some false; Some false; Some false; Some true; Some false; Some false] /\
+  map (full_cover deployed) [w_global; w_rich; w_local; w_assigned; w_shadow; w_before; w_undeclared; w_member_lost] =
+    [Some true; Some true; Some true; Some true; Some true; Some true; Some true; Some false].
 Proof. exact full_cover_witnesses. Qed.
 Print Assumptions C19_outline_complete_full_witnesses.
 
 (* Proved part, for EVERY syntactically valid file (no layout hypothesis).
-   * `top_local_last b nm = Some (l, false, ofl)`: the LAST top-level `local` / `local function` declaration of nm in
-     the main block declares it at identifier Loc l; ofl = the Loc of the function literal if its value is one
-     (`local function f` or `local f = function`).  The outline has a "local" entry nm whose s_decl is l, which is
-     function-valued iff the declaration is, and then its range is the function literal's Loc (for a `local function`
-     statement that Loc starts at `local`, so it contains the identifier).
+   * `In (l, false, ofl) (top_local_decls b nm)`: a top-level `local` / `local function` statement of the main block
+     declares nm at identifier Loc l; ofl = the Loc of the function literal if its value is one (`local function f` or
+     `local f = function`).  EVERY such declaration (not only the last one of each name - class shadowed_top_local,
+     repaired) has its own "local" entry nm whose s_decl is l, function-valued iff the declaration is, and then its
+     range is the Union of the function's Loc and the identifier; by C19_range_contains_decl the range contains l.
    * `asg_block nm b = true`: nm occurs as an assignment target `nm = ...` / `function nm() end` at a place the
      analysis visits (anywhere, any depth; not inside the surplus values of `local a = v1, v2, v3`, which LuaHelper
      never analyses); `chk_block (not_named nm) any_target b = true`: no local, parameter or loop variable of the file
      is named nm, table constructors / if statements have as many values as keys / blocks as conditions (parser
-     invariant).  Then the outline has a non-local entry nm.
+     invariant).  Then the outline has a non-local entry nm (see C19_outline_globals_lexical for the lexical guard).
    * For any boolean predicate pt that holds of (name, identifier Loc, Loc of the function literal if the value at the
-     same index is one) for EVERY assignment target `name = value` of the file, pt holds of (s_key, s_decl, range if
-     function-valued) of every non-local entry: the entry is located at one of the file's assignment targets of that
-     name (for a `function f() end` statement the range is the statement's function Loc, which contains f).
-   Missing w.r.t. the full statement: earlier declarations of a re-declared top-level local (class shadowed_top_local),
-   globals whose name is also bound as a local / parameter somewhere in the file, function members t.f / t:m (classes
-   member_lost, member_of_undeclared, foreign_member), and "inside the file" of the ranges. *)
+     same index is one) for EVERY assignment target `name = value` of the file, every non-local entry of a defined
+     name satisfies `from_target`: pt holds of (s_key, s_decl, ofl) for some ofl, the entry is function-valued iff
+     ofl is a literal, and its range is then the Union of that literal and the identifier - the entry is located at
+     one of the file's assignment targets of that name (s_undecl marks the container entries of names the file never
+     defines, fix b639f4b).
+   Missing w.r.t. the full statement: globals whose name is also bound as a local / parameter at the place of every
+   assignment (lexical guard), function members t.f / t:m (open class member_lost; for the rest correspondence only),
+   and "inside the file" / start <= end of the ranges without the layout hypothesis. *)
 Theorem C19_outline_complete_partial :
   forall bs b ss,
-    parse_bytes no_gbk classify_tok bs = Ok (PR b [] []) -> outline_of_bytes deployed_fixed bs = Some ss ->
-    (forall nm l ofl, top_local_last b nm = Some (l, false, ofl) ->
-       exists s, In s ss /\ s_local s = true /\ s_key s = nm /\ s_decl s = l /\ s_fn s = is_some ofl /\
-                 (forall fl, ofl = Some fl -> s_loc s = fl)) /\
+    parse_bytes no_gbk classify_tok bs = Ok (PR b [] []) -> outline_of_bytes deployed bs = Some ss ->
+    (forall nm l ofl, In (l, false, ofl) (top_local_decls b nm) ->
+       exists s, In s ss /\ s_local s = true /\ s_undecl s = false /\ s_key s = nm /\ s_decl s = l /\ s_fn s = is_some ofl /\
+                 (forall fl, ofl = Some fl -> s_loc s = loc_union fl l)) /\
     (forall nm, chk_block (not_named nm) any_target b = true -> asg_block nm b = true ->
-       exists s, In s ss /\ s_local s = false /\ s_key s = nm) /\
-    (forall pt s, chk_block any_name pt b = true -> In s ss -> s_local s = false -> pt (entry_triple s) = true).
+       exists s, In s ss /\ s_local s = false /\ s_undecl s = false /\ s_key s = nm) /\
+    (forall pt s, chk_block any_name pt b = true -> In s ss -> s_local s = false -> s_undecl s = false ->
+                  from_target deployed pt s).
 Proof. exact outline_complete_bytes. Qed.
 Print Assumptions C19_outline_complete_partial.
 
 (* the guards are satisfiable: w_rich (locals, globals assigned at depth, function statements, methods); p is a
-   parameter that is also assigned - the guard excludes it *)
+   parameter that is also assigned - the guard excludes it; w_shadow: both declarations of x are in the list *)
 Example C19_outline_complete_guards :
   map (fun nm => parsed_ok (chk_block (not_named nm) any_target) w_rich && parsed_ok (asg_block nm) w_rich)
       [n_q; n_cfg; n_h; n_t; n_p] = [true; true; true; true; false] /\
   parsed_ok (chk_block any_name rich_targets) w_rich = true /\
-  top_local_last_of w_rich n_helper = Some (mkLoc 5 15 5 21, false, Some (mkLoc 5 0 11 3)) /\
-  top_local_last_of w_rich n_M = Some (mkLoc 1 6 1 7, false, None) /\
-  top_local_last_of w_shadow [120%N] = Some (mkLoc 2 6 2 7, false, None).
+  top_local_decls_of w_rich n_helper = [(mkLoc 5 15 5 21, false, Some (mkLoc 5 0 11 3))] /\
+  top_local_decls_of w_rich n_M = [(mkLoc 1 6 1 7, false, None)] /\
+  top_local_decls_of w_shadow [120%N] = [(mkLoc 1 6 1 7, false, None); (mkLoc 2 6 2 7, false, None)].
 Proof. exact complete_guard_examples. Qed.
+
+(* ---------------------------------------------------------------------- the reference list, top-level locals
+   (proof: Proofs/SymbolsSpecLink.v).  The first clause of C19_outline_complete_partial stated on the reference
+   declaration list of the property itself (Spec/SymbolSpec.v: decls_spec, the list that `covers` / the judge of the
+   correspondence legs range over): for EVERY file, every DLocal declaration of the list has an entry of the right
+   kind (entry_for: a top-level "local" entry of that name) whose range contains the declaring identifier.  Missing
+   for `judge_decl = Covered`: the range is inside the file; start <= end (C19_range_well_formed, layout hypothesis). *)
+From LH Require Import Proofs.SymbolsSpecLink.
+
+Theorem C19_outline_covers_locals :
+  forall bs b ss d,
+    parse_bytes no_gbk classify_tok bs = Ok (PR b [] []) -> outline_of_bytes deployed bs = Some ss ->
+    In d (decls_spec (fuel_of_bytes bs) b) -> d_kind d = DLocal ->
+    exists e l, In e (entries_of ss) /\ entry_for d e = true /\ d_locs d = [l] /\ contains (e_range e) l = true.
+Proof. exact outline_covers_locals. Qed.
+Print Assumptions C19_outline_covers_locals.
 
 (* ---------------------------------------------------------------------- globals, lexical version
    (proof: Proofs/SymbolsLexical.v, one more induction over the analysis; it uses that nested constructs restore the
@@ -167,13 +233,11 @@ Proof. exact complete_guard_examples. Qed.
    `shp_block b = true`: parser shape (as many table values as keys, as many `if` blocks as conditions).
    This strengthens the second clause of C19_outline_complete_partial from "bound nowhere in the file" to
    "not bound at the place of the assignment" - the reference binder's notion of a global variable. *)
-From LH Require Import Proofs.SymbolsLexical.
-
 Theorem C19_outline_globals_lexical :
   forall bs b ss nm,
-    parse_bytes no_gbk classify_tok bs = Ok (PR b [] []) -> outline_of_bytes deployed_fixed bs = Some ss ->
+    parse_bytes no_gbk classify_tok bs = Ok (PR b [] []) -> outline_of_bytes deployed bs = Some ss ->
     shp_block b = true -> asgU_block nm b = true ->
-    exists s, In s ss /\ s_local s = false /\ s_key s = nm.
+    exists s, In s ss /\ s_local s = false /\ s_undecl s = false /\ s_key s = nm.
 Proof. exact outline_globals_lexical_bytes. Qed.
 Print Assumptions C19_outline_globals_lexical.
 
@@ -184,31 +248,8 @@ Example C19_outline_globals_lexical_guards :
   parsed_ok (chk_block (not_named n_x) any_target) w_lex = false /\
   parsed_ok shp_block w_rich = true /\
   map (fun nm => parsed_ok (asgU_block nm) w_rich) [n_q; n_cfg; n_h; n_t; n_p; n_M] = [true; true; true; true; false; false] /\
-  (exists ss, outline_of_bytes true w_lex = Some ss /\ map s_key ss = [[102%N]; n_x; [103%N]]).
+  (exists ss, outline_of_bytes fx_all w_lex = Some ss /\ map s_key ss = [[102%N]; n_x; [103%N]]).
 Proof. exact lexical_guard_examples. Qed.
-
-(* ---------------------------------------------------------------------- function statements contain their name
-   Complements C19_range_contains_decl_partial on function-valued entries: the entry of the last top-level
-   `local function g` (function Loc containing the identifier: a function STATEMENT, not `local g = function`) contains
-   its declaring identifier; and in a file whose function-valued `name = value` targets are all function statements
-   (boolean guard fn_target_contains: the function's Loc contains the identifier - false exactly for the class
-   assigned_function_range) EVERY non-local entry's range contains its declaring identifier. *)
-Theorem C19_range_contains_decl_function_statements :
-  forall bs b ss,
-    parse_bytes no_gbk classify_tok bs = Ok (PR b [] []) -> outline_of_bytes deployed_fixed bs = Some ss ->
-    (forall nm l fl, top_local_last b nm = Some (l, false, Some fl) -> contains fl l = true ->
-       exists s, In s ss /\ s_local s = true /\ s_key s = nm /\ s_decl s = l /\ s_fn s = true /\
-                 contains (s_loc s) (s_decl s) = true) /\
-    (forall s, chk_block any_name fn_target_contains b = true -> In s ss -> s_local s = false ->
-               contains (s_loc s) (s_decl s) = true).
-Proof. exact outline_function_statements. Qed.
-Print Assumptions C19_range_contains_decl_function_statements.
-
-Example C19_function_statement_guards :
-  parsed_ok (chk_block any_name fn_target_contains) w_fstat = true /\
-  parsed_ok (chk_block any_name fn_target_contains) w_assigned = false /\
-  top_local_last_of w_fstat [103%N] = Some (mkLoc 2 15 2 16, false, Some (mkLoc 2 0 2 22)).
-Proof. exact fn_statement_guard_examples. Qed.
 
 (* ---------------------------------------------------------------------- workspace/symbol, candidate list (partial)
    DESIGN `C19_workspace_exact` (score-assumption -> #perfect <= maxSymbols -> the exact-name query returns an entry at
@@ -222,7 +263,7 @@ Theorem C19_workspace_candidate_partial :
   forall bs b st nm,
     parse_bytes no_gbk classify_tok bs = Ok (PR b [] []) -> analyse (fuel_of_bytes bs) b = Ok st ->
     shp_block b = true -> asgU_block nm b = true ->
-    exists w, In w (file_wsyms (finalize st)) /\ w_name w = nm /\
+    exists w, In w (file_wsyms deployed (finalize st)) /\ w_name w = nm /\
               forall pt, chk_block any_name pt b = true -> exists ofl, pt (nm, w_loc w, ofl) = true.
-Proof. exact ws_candidate_bytes. Qed.
+Proof. exact (ws_candidate_bytes deployed). Qed.
 Print Assumptions C19_workspace_candidate_partial.
